@@ -94,6 +94,9 @@ class SerializedWaiter(BaseModel):
     has_requirements: bool = Field(default=False)
     # Resolved event if available (serialized), None otherwise
     resolved_event: str | None = None
+    # Whether the wait already timed out (its TimeoutError is still to be delivered
+    # by the replay of the waiting step)
+    timed_out: bool = Field(default=False)
 
     @model_validator(mode="before")
     @classmethod
